@@ -2,8 +2,16 @@
 package props
 
 import (
+	"bufio"
+	"bytes"
 	"fmt"
+	"io"
+	"os"
+	"sort"
 	"strings"
+	"syscall"
+	"testing/iotest"
+	"time"
 
 	bexpr "github.com/hashicorp/go-bexpr"
 	"github.com/hashicorp/go-bexpr/grammar"
@@ -188,4 +196,119 @@ func tierN(tier string, quick, thorough int) int {
 		return thorough
 	}
 	return quick
+}
+
+// fifoParse runs grammar.ParseFile on a named pipe that delivers data (a
+// path whose size as reported by stat is not its content length).
+func fifoParse(dir string, data []byte, opts ...grammar.Option) (val interface{}, err error, ok bool) {
+	path := fmt.Sprintf("%s/fifo-%d-%d", dir, os.Getpid(), fifoSeq)
+	fifoSeq++
+	if syscall.Mkfifo(path, 0o600) != nil {
+		return nil, nil, false
+	}
+	defer os.Remove(path)
+	wrote := make(chan struct{})
+	go func() {
+		defer close(wrote)
+		w, werr := os.OpenFile(path, os.O_WRONLY, 0) // blocks until the reader opens
+		if werr != nil {
+			return
+		}
+		w.Write(data)
+		w.Close()
+	}()
+	done := make(chan struct{})
+	go func() {
+		defer close(done)
+		mon.Try(func() { val, err = grammar.ParseFile(path, opts...) })
+	}()
+	select {
+	case <-done:
+	case <-time.After(20 * time.Second):
+		// nobody opened the pipe for reading: release the writer and give up
+		if r, rerr := os.OpenFile(path, os.O_RDONLY|syscall.O_NONBLOCK, 0); rerr == nil {
+			r.Close()
+		}
+		return nil, nil, false
+	}
+	select {
+	case <-wrote:
+	default:
+		// ParseFile returned without ever opening the pipe: release the writer
+		if r, rerr := os.OpenFile(path, os.O_RDONLY|syscall.O_NONBLOCK, 0); rerr == nil {
+			r.Close()
+		}
+	}
+	return val, err, true
+}
+
+var fifoSeq int
+
+// entryPoints runs the other entry points of the parser on s - ParseReader
+// over readers that deliver their data in unusual but legal ways (the last
+// chunk together with io.EOF, one byte at a time, half of what is asked for,
+// no WriterTo / ReaderFrom shortcuts) and ParseFile on a regular file and on a
+// named pipe - and reports the first one whose result differs from Parse's.
+func entryPoints(s string, workDir string, withFifo bool) (which string, detail string) {
+	data := []byte(s)
+	bval, berr, bpan, _ := parsePublic(s)
+	if bpan != "" {
+		return "", ""
+	}
+	canon := func(v interface{}, e error) string {
+		if e != nil {
+			return "error"
+		}
+		t, terr := treeOf(v)
+		if terr != nil {
+			return "malformed: " + terr.Error()
+		}
+		return xgen.Canon(t)
+	}
+	want := canon(bval, berr)
+	readers := map[string]func() io.Reader{
+		"ParseReader(data with EOF)":   func() io.Reader { return iotest.DataErrReader(bytes.NewReader(data)) },
+		"ParseReader(one byte)":        func() io.Reader { return iotest.OneByteReader(bytes.NewReader(data)) },
+		"ParseReader(half reads)":      func() io.Reader { return iotest.HalfReader(strings.NewReader(s)) },
+		"ParseReader(plain io.Reader)": func() io.Reader { return struct{ io.Reader }{strings.NewReader(s)} },
+		"ParseReader(bufio)":           func() io.Reader { return bufio.NewReaderSize(strings.NewReader(s), 16) },
+	}
+	var names []string
+	for k := range readers {
+		names = append(names, k)
+	}
+	sort.Strings(names)
+	for _, name := range names {
+		var v interface{}
+		var e error
+		if t := mon.Try(func() { v, e = grammar.ParseReader("", readers[name]()) }); t.Panic {
+			return name, "panic: " + t.PanicVal
+		}
+		if got := canon(v, e); got != want {
+			return name, fmt.Sprintf("Parse: %s / %s: %s (%v)", clip(want, 200), name, clip(got, 200), e)
+		}
+	}
+	if workDir != "" {
+		path := fmt.Sprintf("%s/ep-%d.bexpr", workDir, os.Getpid())
+		if os.WriteFile(path, data, 0o600) == nil {
+			var v interface{}
+			var e error
+			t := mon.Try(func() { v, e = grammar.ParseFile(path) })
+			os.Remove(path)
+			if t.Panic {
+				return "ParseFile(regular file)", "panic: " + t.PanicVal
+			}
+			if got := canon(v, e); got != want {
+				return "ParseFile(regular file)", fmt.Sprintf("Parse: %s / ParseFile: %s (%v)", clip(want, 200), clip(got, 200), e)
+			}
+		}
+		if withFifo {
+			if v, e, ok := fifoParse(workDir, data); ok {
+				if got := canon(v, e); got != want {
+					return "ParseFile(named pipe)", fmt.Sprintf("Parse: %s / ParseFile on a named pipe: %s (%v)", clip(want, 200), clip(got, 200), e)
+				}
+			}
+		}
+	}
+	return "", ""
 }
